@@ -19,7 +19,7 @@ from harness.common import sexp
 from harness.common.ctx import Timeout, time_limit
 
 EXE = "c13_model"
-PROPS = ["Holpy.C13.Props", "Holpy.C13.Props2", "Holpy.C13.Props3", "Holpy.C13.Props4"]
+PROPS = ["Holpy.C13.Props", "Holpy.C13.Props2", "Holpy.C13.Props3", "Holpy.C13.Props4", "Holpy.C13.Props5"]
 
 THEORIES_QUICK = ["logic_base", "logic", "function", "list", "hoare", "nat", "set"]
 THEORIES_THOROUGH = ["logic_base", "logic", "function", "list", "hoare", "nat", "set", "expr", "topology"]
@@ -713,7 +713,10 @@ def perturb(step, state, rng):
 
 
 IMPORT_ENCODER = None     # the Recorder of the run (stream `import`)
-METHOD_MODELLED = {"cut", "forall_elim", "apply_fact", "new_var", "cases", "introduction", "revert_intro"}
+METHOD_MODELLED = {"cut", "forall_elim", "apply_fact", "new_var", "cases", "introduction", "revert_intro",
+                   "rewrite_fact", "rewrite_fact_with_prev", "apply_forward_step"}
+# forward methods that look afterwards whether the goal is now proved by an earlier line (forwardCloseM)
+METHOD_FORWARD_CLOSE = {"rewrite_fact", "rewrite_fact_with_prev", "apply_forward_step"}
 SEARCH_HOOK = None        # C14 logs the searches the step generator makes (replay of history-dependent failures)
 CURRENT_RUNNER = None
 
@@ -1273,6 +1276,7 @@ class Recorder:
         self.skipped = 0
         self.active = True           # C14 records only the applications of suggestions
         self.method_records = []     # (label, model op, expected answer)
+        self.search_records = []     # the same for the search-side model (C14: filters and first tests of apply)
         self.import_records = []
         self.export_shape_mismatch = []
 
@@ -1439,6 +1443,9 @@ class Recorder:
         if name == "cut":
             op = ["cut", before, gid, self.th(it.th)]
             self.method_records.append(("method:cut", op, ["ok", after]))
+        elif name in METHOD_FORWARD_CLOSE:
+            op = ["forwardclose", before, gid, self.rcode(it.rule), [list(p.id) for p in it.prevs], self.th(it.th)]
+            self.method_records.append(("method:forwardclose:" + name, op, ["ok", after]))
         else:
             op = ["forward", before, gid, self.rcode(it.rule), [list(p.id) for p in it.prevs], self.th(it.th)]
             self.method_records.append(("method:forward:" + name, op, ["ok", after]))
@@ -1667,7 +1674,8 @@ def correspondence(ctx, recorder, exe=None, id_cases=None):
             lines.append(sexp.dumps(["wf", m]))
             expect.append(norm(py_wf(m)))
             label.append("wf:mutated")
-    for lab, op, res in getattr(recorder, "method_records", []) + getattr(recorder, "import_records", []):
+    for lab, op, res in getattr(recorder, "method_records", []) + getattr(recorder, "import_records", []) \
+            + getattr(recorder, "search_records", []):
         lines.append(sexp.dumps(op))
         expect.append(norm(res))
         label.append(lab)
@@ -1835,14 +1843,20 @@ MANIFEST = {
             "(all five operations keep rule and sequent of the last top-level line under safeRunAll), apply_tactic_keeps_statement / "
             "apply_tactic_keeps_goal_line / tactics_preserve_goal (apply_tactic changes no top-level line other than its goal; after any "
             "sequence of tactic applications the last line still states the original goal; hypotheses: exported lines numbered id, id+1, .. "
-            "- checked on every captured export - and the last line is not a gap); import_numbered (whatever parse_proof accepts has ids = "
+            "- checked on every captured export - and the last line is not a gap); apply_tactic_keeps_statement_nested (goal at any depth: "
+            "in the proof that contains the goal every other line keeps rule and sequent, in place; only the goal line is replaced by the "
+            "surviving lines of the proof term); edit_frame (each of the five operations leaves every line that is neither in the proof "
+            "containing its target nor below one of that proof's lines exactly as it was: id, rule, citations, sequent, subproof flag - "
+            "other top-level lines, enclosing proofs incl. the owning subproof line, sibling subproofs); import_numbered (whatever parse_proof accepts has ids = "
             "positions); copy_isolated (operations that only attach fresh argument objects - all operations as coded - leave every earlier "
             "state unchanged) with in_place_update_not_isolated_counterexample; remove_line_cited_*_counterexample (remove_line does not "
-            "check that the line is uncited: its callers replace_id [proved] and revert_intro [asserted in the code, not modelled] do). "
+            "check that the line is uncited) with remove_line_callers_establish_precondition (both callers do establish it: after "
+            "replace_id's re-pointing, and after revert_intro's guard `not is_used` + its two set_line calls [revertIntroM, stream "
+            "method:revert_intro], no line of the parent proof or below cites the line that remove_line then removes). "
             "export_import_id (importLines (exportLines s) = s for every proof, subproofs at any depth, whose ids equal positions and whose "
-            "subproof lines have non-empty subproofs). PARTIAL / NOT proved: remove_line_callers_establish_precondition_partial covers "
-            "replace_id; revert_intro is modelled (revertIntroM with the guard not is_used, stream method:revert_intro) but that its guard "
-            "implies the precondition of remove_line is not proved; that the new "
+            "subproof lines have non-empty subproofs). PARTIAL / NOT proved: inside the proof an operation works in, edit_frame says nothing (there: the "
+            "wf theorems and apply_tactic_keeps_statement_nested; that the primitives keep rule/sequent of the untouched lines of that "
+            "proof is immediate from their definition and compared by the primitive stream, not a separate theorem); that the new "
             "conclusion line states a sequent proving the goal's is the hypothesis pt.th.can_prove(goal) asserted by fix C13-9, not a "
             "theorem; printed arguments/sequents are opaque (C07); copy isolation is proved for the aliasing model, the claim that the "
             "code only allocates is the `alias` stream.",
